@@ -296,7 +296,9 @@ fn one_case(rng: &mut Rng, _tier: &str) -> (String, bool, String, Vec<&'static s
                 // mostly extend the newest commit so that fast-forwards happen
                 let p = if rng.chance(1, 2) { *pool.last().unwrap() } else { *rng.pick(&pool) };
                 parents.push(p);
-                if pool.len() >= 2 && rng.chance(1, 8) {
+                // merge commits only without abandonment: rebasing a merge whose abandoned
+                // parent sits on the root commit is refused by the Git backend (not C34's topic)
+                if !abandon && pool.len() >= 2 && rng.chance(1, 6) {
                     let q = *rng.pick(&pool);
                     if q != p {
                         parents.push(q);
